@@ -851,6 +851,41 @@ func runC01(env *vk.Env) {
 		nbtDecodeAll(tr, fmtName, nbtDocBytes(fmtName, name, tree), tree, "random", rng, false)
 	}
 	nbtFlush(env, &tr, "B random documents x decode targets", &part, true)
+	// arrays whose length is a multiple of a block size a decoder might read by (and one more / one less), followed by
+	// another field: every element is what the document says, and what follows is found where it is
+	tr = &vk.Trace{}
+	for _, bl := range []struct{ tag, n int }{{12, 511}, {12, 512}, {12, 513}, {12, 1024}, {11, 1023}, {11, 1024}, {11, 2048}, {7, 4096}, {7, 4097}, {7, 8192}} {
+		arr := &nbtNode{T: bl.tag}
+		switch bl.tag {
+		case 7:
+			arr.Pat = make([]int, bl.n)
+			for i := range arr.Pat {
+				arr.Pat[i] = (i*7 + 1) % 256
+			}
+		default:
+			w := map[int]int{11: 4, 12: 8}[bl.tag]
+			for i := 0; i < bl.n; i++ {
+				wd := make([]int, w)
+				for k := range wd {
+					wd[k] = (i*31 + k*5 + 1) % 256
+				}
+				arr.Wds = append(arr.Wds, wd)
+			}
+		}
+		tree := &nbtNode{T: 10, Ent: []nbtEntry{{K: ints([]byte("data")), N: arr}, {K: ints([]byte("after")), N: &nbtNode{T: 3, Pat: []int{0, 0, 0, 7}}}}}
+		fmtName := []string{"file", "network"}[bl.n%2]
+		input := append(nbtDocBytes(fmtName, []byte{}, tree), 0xff)
+		for _, tg := range []string{"any", "map", "skip"} {
+			tr.Add(nbtDecode(fmtName, input, tg, "block-sized-array"))
+		}
+		if t := shapeOf(tree, false); t != nil {
+			if pan, _ := catch(func() { t.reflectType() }); !pan {
+				tr.Add(nbtDecodeShaped(fmtName, input, t, "block-sized-array", false))
+			}
+		}
+		env.Distinct(fmt.Sprintf("block-sized-array/tag%d/%d", bl.tag, bl.n))
+	}
+	nbtJudge(env, tr, "B arrays of block-size lengths")
 	tr = &vk.Trace{}
 	ne := env.Pick(400, 60000)
 	for i := 0; i < ne; i++ {
